@@ -319,6 +319,14 @@ func runHistCase(w *bufio.Writer, ops []histOp, st *rphStats) {
 	if len(fin) >= 2 {
 		nontrivial = true
 	}
+	if st.shape != nil {
+		switch n := len(fin); {
+		case n == rphMaxRanges:
+			st.shape["hist-final-ranges=MaxNumAckRanges"]++
+		case n >= rphMaxRanges-2:
+			st.shape["hist-final-ranges=Max-2..Max-1"]++
+		}
+	}
 	if m.pruned {
 		st.pruned++
 	}
@@ -346,6 +354,7 @@ type rphStats struct {
 	opKinds                                                                   map[string]int
 	ackSamples                                                                [][][2]int64
 	truncCut                                                                  int
+	shape                                                                     map[string]int
 }
 
 func genHistRandom(r *u.Rng) []histOp {
@@ -778,6 +787,30 @@ func (x *handlerRunner) do(o hOp) (out string, dupFlag bool) {
 			if len(x.st.ackSamples) < 400 && len(ackRs) > 0 && len(ackRs) <= 12 {
 				x.st.ackSamples = append(x.st.ackSamples, append([][2]int64{}, ackRs...))
 			}
+			if x.st.shape != nil {
+				switch n := len(ackRs); {
+				case n <= 1:
+					x.st.shape[fmt.Sprintf("ack-ranges=%d", n)]++
+				case n <= 3:
+					x.st.shape["ack-ranges=2..3"]++
+				case n <= 16:
+					x.st.shape["ack-ranges=4..16"]++
+				case n < rphMaxRanges:
+					x.st.shape["ack-ranges=17..63"]++
+				default:
+					x.st.shape["ack-ranges=MaxNumAckRanges"]++
+				}
+				for j := 1; j < len(ackRs); j++ {
+					switch g := ackRs[j-1][0] - ackRs[j][1] - 1; {
+					case g == 1:
+						x.st.shape["ack-gap=1"]++
+					case g <= 3:
+						x.st.shape["ack-gap=2..3"]++
+					default:
+						x.st.shape["ack-gap>3"]++
+					}
+				}
+			}
 			if len(ackRs) > 1 {
 				x.st.acksMulti++
 				x.nontrivial = true
@@ -1058,7 +1091,7 @@ func witnessEmptyAck(w *bufio.Writer, st *rphStats) {
 
 func runRecvPH(w *bufio.Writer, seed uint64, n int, _ []string) {
 	r := u.NewRng(seed)
-	st := &rphStats{opKinds: map[string]int{}}
+	st := &rphStats{opKinds: map[string]int{}, shape: map[string]int{}}
 	thorough := os.Getenv("VERIF_TIER") == "thorough"
 	nHist := 0
 	emit := func(ops []histOp) { nHist++; runHistCase(w, ops, st) }
@@ -1079,7 +1112,13 @@ func runRecvPH(w *bufio.Writer, seed uint64, n int, _ []string) {
 	for i := 0; i < nLong; i++ {
 		emit(genHistLong(r.Fork()))
 	}
+	nTable := 0
+	for _, ops := range rphHistTable() {
+		nTable++
+		emit(ops)
+	}
 	witnessEmptyAck(w, st)
+	nTable += rphHandlerTable(w, st)
 	modes := [3]int{}
 	for i := 0; i < n; i++ {
 		mode := 0
@@ -1094,6 +1133,15 @@ func runRecvPH(w *bufio.Writer, seed uint64, n int, _ []string) {
 	}
 	nValid := emitValidCases(w, r.Fork(), st, n/4+20)
 	fmt.Fprintf(w, "DIST\tvalidate+ackspacket\t%d\n", nValid)
+	fmt.Fprintf(w, "DIST\tfixed-table-cases\t%d\n", nTable)
+	sk := make([]string, 0, len(st.shape))
+	for k := range st.shape {
+		sk = append(sk, k)
+	}
+	sort.Strings(sk)
+	for _, k := range sk {
+		fmt.Fprintf(w, "DIST\tshape-%s\t%d\n", k, st.shape[k])
+	}
 	fmt.Fprintf(w, "DIST\thist-orders\t%d\nDIST\thist-random+long\t%d\n", nOrders, nHist-nOrders)
 	fmt.Fprintf(w, "DIST\thandler-connection-like\t%d\nDIST\thandler-free\t%d\nDIST\thandler-long\t%d\n", modes[0], modes[1], modes[2])
 	fmt.Fprintf(w, "DIST\tcases-with-range-limit-pruning\t%d\nDIST\tranges-cut-by-Truncate\t%d\n", st.pruned, st.truncCut)
@@ -1182,4 +1230,112 @@ func emitValidCases(w *bufio.Writer, r *u.Rng, st *rphStats, n int) int {
 		cnt++
 	}
 	return cnt
+}
+
+// rphHistTable: fixed boundary histories, so that detection at the boundaries is deterministic.
+func rphHistTable() [][]histOp {
+	iso := func(base int64, k int, desc bool) []histOp {
+		var ops []histOp
+		for i := 0; i < k; i++ {
+			j := i
+			if desc {
+				j = k - 1 - i
+			}
+			ops = append(ops, histOp{'r', base + 2*int64(j)})
+		}
+		return ops
+	}
+	q := func(ps ...int64) []histOp {
+		var ops []histOp
+		for _, p := range ps {
+			ops = append(ops, histOp{'u', p})
+		}
+		return ops
+	}
+	M := rphMaxRanges
+	top := int64(10 + 2*(M-1))
+	var t [][]histOp
+	// exactly MaxNumAckRanges isolated numbers: nothing is dropped
+	t = append(t, append(iso(10, M, false), q(10, 11, 12, top, top+1)...))
+	// one more: the lowest range goes; re-receiving it is accepted and dropped again at once
+	t = append(t, append(append(iso(10, M+1, false), q(10, 12, top+2)...), histOp{'r', 10}, histOp{'u', 10}, histOp{'u', 12}))
+	// descending arrival of Max+1 numbers: the newly created lowest range is the one that goes
+	t = append(t, append(iso(10, M+1, true), q(10, 12, top+2)...))
+	// the witness of C07_duplicate_lowstart_refuted
+	t = append(t, append(append(iso(10, M+1, false), histOp{'r', 13}, histOp{'r', 5}), q(5, 10, 12, 13, 14)...))
+	// a fill that merges at the limit, then a new top range
+	t = append(t, append(append(iso(10, M, false), histOp{'r', 11}, histOp{'r', top + 2}), q(10, 11, 12, top+2)...))
+	// DeleteBelow at every boundary of a range [5..9] with a second range [12..13]
+	for _, p := range []int64{4, 5, 6, 9, 10, 11, 12, 13, 14} {
+		ops := []histOp{{'r', 5}, {'r', 6}, {'r', 7}, {'r', 8}, {'r', 9}, {'r', 12}, {'r', 13}, {'d', p}}
+		ops = append(ops, q(4, 5, 8, 9, 10, 12, 13, 14)...)
+		ops = append(ops, histOp{'m', 13}, histOp{'m', 10}, histOp{'r', p - 1}, histOp{'r', p}, histOp{'d', p - 1})
+		t = append(t, ops)
+	}
+	// the largest packet numbers
+	hi := int64(1)<<62 - 1
+	t = append(t, []histOp{{'r', hi}, {'r', hi - 2}, {'u', hi - 1}, {'r', hi - 1}, {'u', hi}, {'m', hi}, {'d', hi}, {'u', hi - 1}, {'r', hi}})
+	// HighestMissingUpTo around gaps and the forget threshold
+	t = append(t, []histOp{{'r', 0}, {'r', 1}, {'r', 4}, {'r', 8}, {'m', 0}, {'m', 1}, {'m', 2}, {'m', 3}, {'m', 4}, {'m', 7}, {'m', 8}, {'m', 9},
+		{'d', 3}, {'m', 2}, {'m', 3}, {'m', 4}, {'m', 7}, {'d', 4}, {'m', 4}, {'m', 5}})
+	return t
+}
+
+// rphHandlerTable: fixed handler histories for each cause of an immediate ACK, the alarm boundary,
+// Truncate and 0-RTT/1-RTT sharing one space.
+func rphHandlerTable(w *bufio.Writer, st *rphStats) int {
+	one := int64(protocol.Encryption1RTT)
+	zero := int64(protocol.Encryption0RTT)
+	ini := int64(protocol.EncryptionInitial)
+	hs := int64(protocol.EncryptionHandshake)
+	const ms = int64(1000000)
+	mad := rphMaxDelay
+	rcv := func(pn, lvl, t int64, ae bool, ecn protocol.ECN) hOp {
+		return hOp{kind: "recv", pn: pn, ecn: int64(ecn), lvl: lvl, t: t, ae: ae}
+	}
+	get := func(lvl, now int64, only bool) hOp { return hOp{kind: "getack", lvl: lvl, t: now, only: only} }
+	peek := hOp{kind: "peek"}
+	tables := [][]hOp{
+		// lone packet: alarm; GetAckFrame just before, at and after the alarm
+		{rcv(0, one, 5*ms, true, protocol.ECNNon), peek, {kind: "alarm"}, get(one, 5*ms+mad-1, true), get(one, 5*ms+mad, true)},
+		{rcv(0, one, 5*ms, true, protocol.ECNNon), get(one, 5*ms+mad+1, true), peek, {kind: "alarm"}},
+		// second ack-eliciting packet queues
+		{rcv(0, one, ms, true, protocol.ECNNon), rcv(1, one, 2*ms, true, protocol.ECNNon), peek, get(one, 2*ms, true)},
+		// non-ack-eliciting packets never arm anything
+		{rcv(0, one, ms, false, protocol.ECNNon), rcv(1, one, 2*ms, false, protocol.ECNNon), peek, {kind: "alarm"}, get(one, 100*ms, true), get(one, 100*ms, false)},
+		// ECN-CE queues
+		{rcv(0, one, ms, true, protocol.ECNCE), peek, get(one, ms, true)},
+		// reveals a gap above the last ACK
+		{rcv(0, one, ms, true, protocol.ECNNon), get(one, 2*ms, false), rcv(2, one, 3*ms, true, protocol.ECNNon), peek, get(one, 3*ms, true)},
+		// fills a gap of the last ACK
+		{rcv(0, one, ms, true, protocol.ECNNon), rcv(2, one, ms, true, protocol.ECNNon), get(one, 2*ms, false), rcv(1, one, 3*ms, true, protocol.ECNNon), peek, get(one, 3*ms, true)},
+		// no gap: the next packet after an ACK only arms the alarm
+		{rcv(0, one, ms, true, protocol.ECNNon), get(one, 2*ms, false), rcv(1, one, 3*ms, true, protocol.ECNNon), peek, {kind: "alarm"}},
+		// Truncate to one range, then a packet in the cut part
+		{rcv(0, one, ms, true, protocol.ECNNon), rcv(2, one, ms, true, protocol.ECNNon), rcv(4, one, ms, true, protocol.ECNNon), get(one, 2*ms, false),
+			{kind: "trunc", lvl: one, t: 12}, rcv(1, one, 3*ms, true, protocol.ECNNon), peek, rcv(3, one, 3*ms, false, protocol.ECNNon), peek},
+		// 0-RTT and 1-RTT share one space; 0-RTT above the lowest 1-RTT number is refused
+		{rcv(0, zero, ms, true, protocol.ECNNon), rcv(1, zero, ms, true, protocol.ECNNon), rcv(3, one, 2*ms, true, protocol.ECNNon),
+			{kind: "isdup", pn: 1, lvl: one}, {kind: "isdup", pn: 3, lvl: zero}, rcv(2, zero, 3*ms, true, protocol.ECNNon), rcv(4, zero, 3*ms, true, protocol.ECNNon), get(one, 4*ms, false), get(zero, 4*ms, false)},
+		// Initial / Handshake: immediately, independent spaces, dropped spaces
+		{rcv(0, ini, ms, true, protocol.ECT0), get(ini, ms, true), rcv(0, hs, 2*ms, true, protocol.ECT1), get(hs, 2*ms, true), get(one, 2*ms, false),
+			{kind: "drop", lvl: ini}, get(ini, 3*ms, false), rcv(1, hs, 3*ms, false, protocol.ECNNon), get(hs, 3*ms, false), {kind: "drop", lvl: hs}, rcv(2, hs, 4*ms, true, protocol.ECNNon), get(hs, 4*ms, false)},
+		// forget threshold exactly at / next to a received number
+		{rcv(3, one, ms, true, protocol.ECNNon), rcv(4, one, ms, true, protocol.ECNNon), get(one, 2*ms, false), {kind: "isdup", pn: 5, lvl: one}, {kind: "ignore", pn: 4}, rcv(5, one, 3*ms, true, protocol.ECNNon),
+			{kind: "isdup", pn: 3, lvl: one}, {kind: "isdup", pn: 4, lvl: one}, get(one, 4*ms, false)},
+	}
+	for _, ops := range tables {
+		x := newHandlerRunner(false, st)
+		for _, o := range ops {
+			if x.stopped {
+				break
+			}
+			if o.kind == "trunc" && x.lastFrame[2] == nil {
+				continue
+			}
+			x.do(o)
+		}
+		x.finish(w)
+	}
+	return len(tables)
 }
